@@ -21,9 +21,15 @@ pub fn program_spec(rng: &mut Rng, n_choices: &[usize], scheme: Option<SchemeTyp
     let logm = (2 * n).trailing_zeros();
     let k = rng.range(2, 6) as usize;
     let mut bits: Vec<u32> = (0..k).map(|_| rng.range(45, 60) as u32).collect();
-    if rng.chance(1, 4) { bits[0] = rng.range(25, 44) as u32; }
+    let small_first = rng.chance(1, 4);
+    // option combinations: a small prime that is NOT the first one (so that whether a prime is below t — the "fast plain lift"
+    // qualifier — differs from level to level), together with a plain modulus above it
+    let small_at = if k >= 3 && rng.chance(1, 6) { let i = 1 + rng.usize_below(k - 1); bits[i] = rng.range(26, 32) as u32; Some(i) } else { None };
+    // (the first prime stays large then: every level contains it, and t must stay below every level's modulus)
+    if small_first && small_at.is_none() { bits[0] = rng.range(25, 44) as u32; }
     let qs = coeff_primes(n, &bits, rng)?;
-    let (t, tf) = match rng.below(7) {
+    let (t, tf) = match if small_at.is_some() && rng.chance(2, 3) { 7 } else { rng.below(7) } {
+        7 => { let lo = qs[small_at.unwrap()] + 1; let mut c = lo + rng.below(1 << 20); while qs.iter().any(|&q| refm::gcd(q, c) != 1) { c += 1; } (c, "above_a_later_prime") }
         0 => (2u64, "2"),
         1 => (1u64 << rng.range(2, 10), "2^k"),
         2 => { let tb = rng.range((logm + 1) as u64, 18) as u32; (ntt_primes(n, tb, 3, 0).into_iter().find(|c| !qs.contains(c))?, "batching") }
@@ -33,7 +39,9 @@ pub fn program_spec(rng: &mut Rng, n_choices: &[usize], scheme: Option<SchemeTyp
         _ => (rng.range(2, 1 << 12), "random"),
     };
     if qs.iter().any(|&q| refm::gcd(q, t) != 1) { return None; }
-    Some(Spec { scheme, n, qs, t, special_flag: false, expand: true, family: format!("prog-k{}-t:{}", k, tf) })
+    // the special-prime-for-encryption flag (first data level = key level) in one case out of six
+    let special_flag = rng.chance(1, 6);
+    Some(Spec { scheme, n, qs, t, special_flag, expand: true, family: format!("prog-k{}-t:{}{}", k, tf, if special_flag { "-special_flag" } else { "" }) })
 }
 
 pub struct Obs<'a> { pub cfg: &'a Cfg, pub grp: &'a str, pub case: u64, pub prop: &'static str }
